@@ -8,6 +8,7 @@ import (
 	"crypto/sha256"
 	"fmt"
 	"os"
+	"os/exec"
 	"path/filepath"
 	"sort"
 	"strings"
@@ -29,9 +30,13 @@ func main() {
 		Rule: "Generated trees packed by desync.Tar from disk and from a tar stream: root fan-out every n in 0..130 (cases 1..131, every goodbye tree shape up to 7 levels) and PRNG fan-outs up to several thousand, nested directories, names of any length/bytes, several xattrs per entry, symlinks, devices, FIFOs and sockets present in the source (must be skipped cleanly). " +
 			"Oracle: independent strict catar validator (element sizes, order ENTRY XATTR* then PAYLOAD/SYMLINK/DEVICE/children+GOODBYE, FILENAME always followed by ENTRY, sorted child names and xattrs, goodbye: item count, offsets, sizes, SipHash-2-4 of each name, binary-search-tree order, casync lookup finds every child, tail offset/size/marker), anchored on the casync-made fixtures flat/flatdir/nested/complex.catar; the reconstructed tree must equal the source listing. " +
 			"Non-trivial: archive with a directory of >=2 children; distinct by (source, root fan-out, depth, features present)",
-		Assumptions:   []string{"validator and SipHash-2-4 written from the casync format description; anchored by the casync-made fixtures (which hold no xattrs: desync's NUL-terminated xattr value convention is taken as given)"},
-		Cases:         cases,
-		Run:           run,
+		Assumptions: []string{"validator and SipHash-2-4 written from the casync format description; anchored by the casync-made fixtures (which hold no xattrs: desync's NUL-terminated xattr value convention is taken as given)"},
+		Cases:       cases,
+		Run:         run,
+		ParentSetup: func(tier string, seed int64, work string) ([]string, error) {
+			p, err := harness.BuildCLI(work, "desync-verif", "verif", false)
+			return []string{"VERIF_CLI=" + p}, err
+		},
 		MinNonTrivial: 20,
 		CaseTimeout:   180 * time.Second,
 	})
@@ -86,7 +91,33 @@ func run(c *harness.Ctx, i int) {
 		source = "tar-stream"
 	}
 	entries := treegen.Generate(rng, o)
-	c.Info("source=%s entries=%d root-fanout=%d depth<=%d specials=%v devices=%v xattrs=%v oddnames=%v", source, len(entries), o.FixedFanout, o.MaxDepth, o.Specials, o.Devices, o.Xattrs, o.OddNames)
+	bigNested := 0
+	if i > 131 && i%20 == 2 {
+		// a very large directory that is NOT the root, with siblings in front of and behind it and below a parent: its
+		// size enters the goodbye tables of every directory above it
+		source = "disk"
+		bigNested = []int{300, 1023, 1024, 1025, 1500, 2100, 3000}[rng.Intn(7)]
+		mt := int64(1500000000_000000000)
+		d := func(p string) { entries = append(entries, treegen.Entry{Path: p, Kind: "dir", Mode: 0755, MTime: mt}) }
+		f := func(p string) {
+			entries = append(entries, treegen.Entry{Path: p, Kind: "file", Mode: 0644, MTime: mt, Data: []byte(p)})
+		}
+		base := "zz-nest"
+		if rng.Intn(2) == 0 {
+			base = "0-nest" // sorts before most generated names
+		}
+		d(base)
+		d(base + "/a-before")
+		f(base + "/a-before/x")
+		d(base + "/m-big")
+		for k := 0; k < bigNested; k++ {
+			f(fmt.Sprintf("%s/m-big/f%05d", base, k))
+		}
+		d(base + "/z-after")
+		f(base + "/z-after/y")
+		f(base + "/zz-last")
+	}
+	c.Info("source=%s entries=%d big-nested-dir=%d root-fanout=%d depth<=%d specials=%v devices=%v xattrs=%v oddnames=%v", source, len(entries), bigNested, o.FixedFanout, o.MaxDepth, o.Specials, o.Devices, o.Xattrs, o.OddNames)
 	c.LogInfo()
 	dir := c.CaseDir()
 	root := filepath.Join(dir, "tree")
@@ -147,6 +178,46 @@ func run(c *harness.Ctx, i int) {
 			c.Violation("tar-failed", "Tar from a tar stream failed: %v", err)
 			return
 		}
+	}
+	if source == "disk" && i%4 == 1 && len(entries) < 400 {
+		// the command line tool writing the archive to a path that may already hold something (an older, larger archive)
+		out := filepath.Join(dir, "out.catar")
+		prior := []string{"absent", "shorter", "longer", "longer-archive"}[rng.Intn(4)]
+		switch prior {
+		case "shorter":
+			os.WriteFile(out, []byte("old"), 0644)
+		case "longer":
+			junk := make([]byte, buf.Len()+1+rng.Intn(5000))
+			rng.Read(junk)
+			os.WriteFile(out, junk, 0644)
+		case "longer-archive":
+			// a well-formed archive that is longer: this one followed by nothing but with a bigger tree
+			var prev bytes.Buffer
+			big := filepath.Join(dir, "prevtree")
+			os.MkdirAll(filepath.Join(big, "d"), 0755)
+			for k := 0; k < 40; k++ {
+				os.WriteFile(filepath.Join(big, "d", fmt.Sprintf("f%d", k)), make([]byte, 200+buf.Len()/40), 0644)
+			}
+			desync.Tar(context.Background(), &prev, desync.NewLocalFS(big, desync.LocalFSOptions{}))
+			os.WriteFile(out, prev.Bytes(), 0644)
+		}
+		cmd := exec.Command(os.Getenv("VERIF_CLI"), "tar", out, root)
+		cmd.Env = append(os.Environ(), "HOME="+dir)
+		if o, err := cmd.CombinedOutput(); err != nil {
+			c.Violation("cli-tar-failed", "desync tar failed: %v %s", err, o)
+			return
+		}
+		fileBytes, _ := os.ReadFile(out)
+		if _, err := oracle.ValidateCatar(fileBytes, true); err != nil {
+			c.Violation("malformed-archive:cli", "desync tar onto a path holding %s content wrote a file (%d bytes) the independent validator rejects: %v", prior, len(fileBytes), err)
+			return
+		}
+		if !bytes.Equal(fileBytes, buf.Bytes()) {
+			c.Violation("malformed-archive:cli", "desync tar wrote %d bytes that differ from the archive the library produces for the same tree (%d bytes); prior content: %s", len(fileBytes), buf.Len(), prior)
+			return
+		}
+		c.Count("cli_archives_validated", 1)
+		c.NonTrivial("cli|prior-%s", prior)
 	}
 	got, err := oracle.ValidateCatar(buf.Bytes(), source == "disk")
 	if err != nil {
